@@ -347,12 +347,21 @@ class Queue(Greenlet):
                     if self.relay and id not in self.active_ids \
                             and id not in taken:
                         self.active_ids.add(id)
+                        # An announcement of this very write may have put
+                        # the message on the schedule already: that entry
+                        # would shadow the one of a later retry.
+                        self._unschedule(id)
                         self._pool_spawn('relay', self._attempt, id, env, 0)
                 elif not isinstance(id, QueueError):
                     raise id  # Re-raise exceptions that are not QueueError.
         finally:
             del self.enqueue_watchers[watcher]
         return results
+
+    def _unschedule(self, id):
+        if id in self.queued_ids:
+            self.queued = [entry for entry in self.queued if entry[1] != id]
+            self.queued_ids.discard(id)
 
     def _load_all(self):
         for entry in self.store.load():
